@@ -43,7 +43,7 @@ TRUSTED = [
     "formula.simplify() and the SMT-LIB printer are outside the model (C01/C07): the model sees a formula as its set of free symbols after simplify(); the meaning of every logged assertion is checked by the oracle",
 ]
 ASSUMPTIONS = [
-    "a history ends at the first exception raised by the wrapper (behaviour after an exception is not modelled)",
+    "the Coq model has no failing calls: a modelled history ends at the first exception raised by the wrapper; histories in which a call fails and the history goes on (family `fault`, property C15 on the solver object) are checked by the oracle only: the commands of the failing call are taken out of the log and the rest must behave like the history without that call (verdicts by brute force, no exception, legal stream); model key sets / values of symbols first declared by the failing call are not compared; a solver process that dies is not exercised",
     "OS pipe buffering and process start-up are not modelled",
     "custom sorts: arity 0 and two instances of one arity-2 sort symbol (model: a second declared-set with its own level stack, separate name space); reading abstract values of custom sorts is not modelled (open finding)",
     "the sat-mode precondition of get-value is enforced by the reference solver, not by the Coq spec; generated histories query values only after a sat answer",
@@ -51,6 +51,7 @@ ASSUMPTIONS = [
 ]
 RULE = ("histories: (a) the witnesses of the clauses repaired by fixes C17 a-e (regression), (b) user-legal histories over a 13-call alphabet: all up to length 2 + a sample of length 3 (thorough: all up to length 4), "
         "(c) random histories with one-level push/pop, no reset, value queries last, (d) random histories stressing one repaired clause each; a quarter of (c),(d) draws from a 40-symbol pool of mixed sorts with formulas of 7..33 distinct free symbols (sizes 7,8,9,15,16,17,31,32,33 explicitly), "
+        "(f) fault (C15, oracle only): one call FAILS (an assertion the strict solver refuses after accepting its declarations: Real-sorted subterm or symbol, non-Boolean formula; a construction pysmt rejects before anything is sent: Pow over Int; a value query without a current sat answer; pop below level 0), it mentions symbols / a custom sort for the first time, and 1-4 legal calls that mention them follow (same level, after push, after pop), then solve / get_value / get_model; "
         "(d'') names: a custom sort and a symbol with the SAME name (both arrival orders, one assertion or several, across push / pop(n) / reset, first use popped before the second arrives), a symbol named like its own sort, sorts named like theory functions / auxiliary let names / needing quotes, symbols named Int, 0x, .def_k; 15% of (c),(d) add such names to their pool; sortpos: a custom sort (arity 0 / instance of the arity-2 symbol) that occurs ONLY in quantifier binders or as index sort of constant array values, in closed formulas or formulas whose free symbols are declared already (often the symbol NAMED like the sort), first use at level 0 / in a pushed level / popped and used again / after reset, via add_assertion and the one-shot checks; paramsort: two instances of a sort symbol with arguments; sortvalue: value queries on custom-sort symbols, "
         "(d') poplevels: symbols declared at different levels, one pop(n) with n in 2..4, reuse of symbols of the lowest/middle/highest popped level in small and large formulas, with/without a small formula first, optionally after push / reset_assertions; widemodel: 15..33 symbols at one level then get_model / get_value of wide terms, "
         "(value queries anywhere / get_model at any depth / push,pop with n in 0..3 / reset_assertions / value query on an unasserted symbol), (e) factory one-shot shortcuts; "
@@ -88,6 +89,7 @@ for _k, _so in enumerate(["U:" + n for n in SORTS] + ["U:(Pair Int Int)"]):
 # symbols (of built-in sorts) named like a custom sort / oddly; b0, p1, u0 above collide too
 ODD_SYMS = [("S", "Bool"), ("T", "BV"), (".def_0", "Bool"), ("a b", "Bool"), ("Int", "Bool"), ("0x", "Int"), (".def_1", "BV")]
 POOL += ODD_SYMS
+POOL += [("rr0", "Real")]      # only inside calls that are meant to fail (fault family)
 SYM_ID = {n: k for k, (n, _) in enumerate(POOL)}
 SYM_SORT = dict(POOL)
 assert len(SYM_SORT) == len(POOL)
@@ -110,6 +112,8 @@ def pysmt_type(sort, mgr, types):
         return types.INT
     if sort == "BV":
         return types.BVType(BVW)
+    if sort == "Real":
+        return types.REAL
     if sort[2:] in PARAM_SORTS:
         decl, args = PARAM_SORTS[sort[2:]]
         return mgr.env.type_manager.get_type_instance(mgr.env.type_manager.Type(decl, len(args)),
@@ -274,6 +278,10 @@ def to_pysmt(t, mgr, types):
         return mgr.Int(t[1])
     if op == "bvconst":
         return mgr.BV(t[1] % (1 << BVW), BVW)
+    if op == "pow":         # (pow t k): an operator the reference solver does not know
+        return mgr.Pow(R(1), mgr.Int(t[2]))
+    if op == "toreal_le":   # (<= (to_real t) c.0): Real is not supported by the reference solver
+        return mgr.LE(mgr.ToReal(R(1)), mgr.Real(t[2]))
     if op in ("exists", "forall"):
         vs = [mgr.Symbol(n, pysmt_type(SYM_SORT[n], mgr, types)) for n in t[1]]
         return (mgr.Exists if op == "exists" else mgr.ForAll)(vs, R(2))
@@ -1165,8 +1173,20 @@ def read_log(path):
     return out, end, partial
 
 
+def _records(path):
+    try:
+        return open(path).read().count("\n")
+    except OSError:
+        return 0
+
+
 def run_history(h, logpath, mode="incremental"):
-    """Drive the real SmtLibSolver through history h.  Returns a JSON-able observation."""
+    """Drive the real SmtLibSolver through history h.  Returns a JSON-able observation.
+    mode "fault:<k>": call number k is expected to FAIL; its exception is recorded and the history
+    goes on (C15: a failing call leaves no trace)."""
+    fault = int(mode.split(":")[1]) if mode.startswith("fault:") else None
+    if fault is not None:
+        mode = "incremental"
     import pysmt.environment
     import pysmt.logics
     import pysmt.typing as types
@@ -1200,6 +1220,26 @@ def run_history(h, logpath, mode="incremental"):
                 kind = call[0]
                 r = None
                 fv = None
+                if k == fault:
+                    n0 = _records(logpath)
+                    try:
+                        if kind in ("add", "is_sat", "is_valid", "is_unsat"):
+                            getattr(s, "add_assertion" if kind == "add" else kind)(to_pysmt(call[1], mgr, types))
+                        elif kind == "pop":
+                            s.pop(call[1])
+                        elif kind == "get_value":
+                            s.get_value(to_pysmt(call[1], mgr, types))
+                        elif kind == "get_model":
+                            s.get_model()
+                        obs["fault"] = {"at": k, "type": None, "msg": "the call did not fail"}
+                    except Watchdog:
+                        raise
+                    except Exception as ex:
+                        obs["fault"] = {"at": k, "type": type(ex).__name__, "msg": str(ex)[:200]}
+                    obs["fault_span"] = (n0, _records(logpath))
+                    obs["fvs"].append(None)
+                    obs["results"].append(None)
+                    continue
                 if kind in ("add", "is_sat", "is_valid", "is_unsat"):
                     F = to_pysmt(call[1], mgr, types)
                     G = mgr.Not(F) if kind == "is_valid" else F
@@ -1225,7 +1265,7 @@ def run_history(h, logpath, mode="incremental"):
                     m = s.get_model()
                     r = {"assigned": {kk.symbol_name(): _value_of(vv) for kk, vv in m},
                          "completed": {n: _value_of(m.get_value(mgr.Symbol(n, pysmt_type(so, mgr, types))))
-                                       for n, so in POOL if not is_usort(so)}}
+                                       for n, so in POOL if not is_usort(so) and so != "Real"}}
                 obs["fvs"].append(fv)
                 obs["results"].append(r)
     except Watchdog as ex:
@@ -1324,6 +1364,8 @@ def _worker(job):
     try:
         if mode == "shortcut":
             obs["fails"], obs["key"] = shortcut_oracle(h, obs), None
+        elif mode.startswith("fault:"):
+            obs["fails"], obs["key"] = fault_oracle(h, int(mode.split(":")[1]), obs), None
         else:
             obs["fails"] = oracle(h, obs)
             obs["key"] = diagnose(h, obs, obs["fails"])
@@ -1719,6 +1761,8 @@ def show_history(h):
 
 
 def show_term(t):
+    if not isinstance(t, (tuple, list)):
+        return str(t)
     if t[0] == "var":
         return t[1]
     if t[0] in ("iconst", "bvconst"):
@@ -1752,7 +1796,9 @@ def repro_snippet(h):
 
 def report(chk, h, mode, obs, fails, key, extra=None):
     rep = {"kind": "history", "history": [list(c) for c in h], "mode": mode,
-           "shown": show_history(h) if mode == "incremental" else "env.factory.%s(%s, solver_name='smtref')" % (h[0][0], show_term(h[0][1])), "repro": repro_snippet(h) if mode == "incremental" else "env.factory.%s(%s, solver_name='smtref')" % (h[0][0], show_term(h[0][1])),
+           "shown": show_history(h) if mode == "incremental" else
+                    ("%s   [call %s is expected to FAIL; the later calls must behave as if it had not been made]" % (show_history(h), mode.split(":")[1])
+                     if mode.startswith("fault:") else "env.factory.%s(%s, solver_name='smtref')" % (h[0][0], show_term(h[0][1]))), "repro": repro_snippet(h) if mode != "shortcut" else "env.factory.%s(%s, solver_name='smtref')" % (h[0][0], show_term(h[0][1])),
            "failures": fails, "observed": {"exception": obs["exc"], "results": obs["results"], "commands": [(e["cmd"], e["reply"]) for e in obs["log"]]},
            "expected": "legal stream (no (error ...) reply), no exception, verdict = brute force over live assertions, model binds every live symbol and satisfies the live assertions",
            "oracle": "strict reference solver log + harness brute force"}
@@ -1828,6 +1874,10 @@ def run(tier):
         for _ in range(n):
             jobs.append((gen(rnd), "incremental"))
             tags.append(fam)
+    for _ in range(140 if tier == "quick" else 2000):
+        hf, kf = fault_history(rnd)
+        jobs.append((hf, "fault:%d" % kf))
+        tags.append("fault")
     nshort = 70 if tier == "quick" else 700
     for k in range(nshort):
         if k % 7 == 0:      # one-shot shortcuts on formulas with many symbols
@@ -1988,6 +2038,120 @@ def run(tier):
     return chk.finish(TRUSTED, ASSUMPTIONS, RULE)
 
 
+def fault_oracle(h, k, obs):
+    """C15 on a solver object: call k fails; every LATER call must behave as on a twin solver
+    that never saw the failing call.  The twin is the user's view of the history without call k
+    (verdicts by brute force, no exception, legal stream): the commands logged during the failing
+    call are taken out of the log and the usual oracle runs on the rest."""
+    f = obs.get("fault")
+    if f is None:
+        return oracle(h[:k], obs) if obs["exc"] or obs["timeout"] else [{"kind": "uninterpretable-observation", "what": "the failing call was not reached"}]
+    n0, n1 = obs.get("fault_span", (0, 0))
+    h2 = h[:k] + h[k + 1:]
+    o2 = dict(obs)
+    # the raw log starts at record 0; the harness dropped nothing before n1 (only a trailing exit)
+    o2["log"] = obs["log"][:n0] + obs["log"][n1:]
+    o2["results"] = obs["results"][:k] + obs["results"][k + 1:]
+    o2["fvs"] = obs["fvs"][:k] + obs["fvs"][k + 1:]
+    if obs["exc"] is not None and obs["exc"]["at"] > k:
+        o2["exc"] = dict(obs["exc"], at=obs["exc"]["at"] - 1)
+    fails = oracle(h2, o2)
+    for x in fails:
+        x["after_failing_call"] = {"index": k, "call": show_history([h[k]]), "raised": f}
+        if isinstance(x.get("at"), int) and x["at"] >= k:
+            x["at"] += 1
+    return fails
+
+
+def fault_history(rnd):
+    """A call that FAILS in the middle of a history that goes on.  Failing kinds: an assertion the
+    strict solver refuses after it accepted the declarations the assertion needed (an unknown
+    operator, a Real-sorted subterm or symbol, a non-Boolean formula), a value query when no sat
+    answer is current, pop below level 0.  The failing call mentions symbols (and sometimes a custom
+    sort) that occur there for the first time; 1-4 legal calls follow that mention them again, at the
+    same level, after a push, after a pop."""
+    ideal = Ideal()
+    h = []
+
+    def do(call):
+        ideal.step(call)
+        h.append(call)
+
+    base = rnd.sample(["b0", "b1", "v0", "i1"], 2)
+    fresh_int, fresh_bool = rnd.choice(["i0", "k0", "k1"]), rnd.choice(["b2", "p0", "p1", "S"])
+    sn = rnd.choice(["S", "T", "p1", "e0"])
+    # prefix
+    for _ in range(rnd.choice([0, 1, 2])):
+        do(("add", gen_wide(rnd, rnd.sample(base, rnd.choice([1, 2])))))
+    if rnd.random() < 0.4:
+        do(("push", rnd.choice([1, 2])))
+        if rnd.random() < 0.5:
+            do(("add", gen_wide(rnd, [rnd.choice(base)])))
+    if rnd.random() < 0.3 and ideal.cheap():
+        do(("solve",))
+    # the failing call
+    kind = rnd.choice(["refused-assert"] * 5 + ["value-not-sat", "value-not-sat", "pop-below-0", "pop-below-0"])
+    new = []
+    if kind == "refused-assert":
+        yi, yb = ("var", fresh_int), ("var", fresh_bool)
+        bad = rnd.choice([
+            ("eq", ("pow", yi, 2), ("iconst", 4)),
+            ("toreal_le", yi, 1),
+            ("and", ("not", yb), ("eq", ("pow", yi, 2), ("iconst", 1))),
+            ("toreal_le", ("var", "rr0"), 1),
+            ("and", ("not", yb), ("and", ("toreal_le", ("var", "rr0"), 2), ("le", yi, ("iconst", 0)))),
+            ("plus", yi, ("iconst", 1)),                                    # not Boolean
+        ])
+        new = [fresh_int, fresh_bool]
+        if rnd.random() < 0.35:     # a custom sort (and its elements) first seen in the failing call too
+            bad = ("and", wide_literal(rnd, SORT_ELEMS[sn][0], True), bad) if bad[0] != "plus" else bad
+            new += SORT_ELEMS[sn]
+        fcall = (rnd.choice(["add", "add", "add", "is_sat"]), bad)
+    elif kind == "value-not-sat":
+        # no sat answer is current: nothing checked yet, or an assertion / push since the last check
+        if not ideal.declared() or ideal.sat_mode:
+            do(("add", gen_wide(rnd, [rnd.choice(base)])))
+        if rnd.random() < 0.5:
+            fcall = ("get_value", ("var", rnd.choice(sorted(ideal.declared()))))
+        else:
+            fcall = ("get_model",)
+        new = [fresh_bool]
+    else:
+        fcall = ("pop", ideal.depth() + rnd.choice([1, 1, 2]))
+        new = [fresh_bool]
+    k = len(h)
+    h.append(fcall)
+    # continuation: legal calls that mention the symbols first seen in the failing call
+    n = rnd.choice([1, 2, 3, 4])
+    between = rnd.choice([None, None, "push", "pop", "push-pop"])
+    if between in ("push", "push-pop"):
+        do(("push", 1))
+    if between == "pop" and ideal.depth() > 0:
+        do(("pop", 1))
+    for j in range(n):
+        names = [x for x in rnd.sample(new, min(len(new), rnd.choice([1, 2]))) if SYM_SORT[x] != "Real"] or [fresh_bool]
+        names = list(dict.fromkeys(names + rnd.sample(base, rnd.choice([0, 1]))))
+        r = rnd.random()
+        f = gen_wide(rnd, names)
+        if r < 0.55:
+            do(("add", f))
+        elif r < 0.75 and ideal.cheap([f]):
+            do(("is_sat", f))
+        elif r < 0.9 and ideal.cheap():
+            do(("solve",))
+        else:
+            do(("add", f))
+        if between == "push-pop" and j == 0 and ideal.depth() > 0:
+            do(("pop", 1))
+    if ideal.cheap():
+        do(("solve",))
+        if ideal.sat_mode and not any(is_usort(SYM_SORT[x]) for x in ideal.declared() | set(new)):
+            if rnd.random() < 0.5:
+                do(("get_value", ("var", rnd.choice(names))))
+            do(("get_model",))
+    return h, k
+
+
 def shortcut_oracle(h, obs):
     name, f = h[0]
     fails = []
@@ -2022,7 +2186,7 @@ def shortcut_oracle(h, obs):
                 if e["name"] == "assert":
                     logged |= set(e["symbols"])
             missing = sorted(logged - set(envm))
-            full = {n: domain(so)[0] if so != "Int" else 0 for n, so in POOL if not is_usort(so)}   # EagerModel's completion
+            full = {n: domain(so)[0] if so != "Int" else 0 for n, so in POOL if not is_usort(so) and so != "Real"}   # EagerModel's completion
             full.update(envm)
             if missing or not holds(f, full):
                 fails.append({"kind": "model-incomplete", "missing": missing, "what": "model %r does not satisfy the formula" % (envm,)})
@@ -2045,8 +2209,9 @@ def replay(path):
     mode = r.get("mode", "incremental")
     logdir = lib.mkdir(os.path.join(lib.BUILD, "C17", "logs"))
     obs = run_history(h, os.path.join(logdir, "replay.jsonl"), mode)
-    fails = oracle(h, obs) if mode == "incremental" else shortcut_oracle(h, obs)
-    print("history:", show_history(h))
+    fails = oracle(h, obs) if mode == "incremental" else \
+        (fault_oracle(h, int(mode.split(":")[1]), obs) if mode.startswith("fault:") else shortcut_oracle(h, obs))
+    print("history:", show_history(h), obs.get("fault"))
     for e in obs["log"]:
         print("   %-60s -> %s" % (e["cmd"], e["reply"]))
     print("results:", obs["results"])
